@@ -180,6 +180,9 @@ def run_check(pid: str, tier: str) -> int:
     except HarnessError as e:
         print(f"HARNESS-ERROR property={pid}: {e}", flush=True)
         return 2
+    except Exception as e:  # noqa: BLE001 - an escaped exception is a defect of the harness, never a verdict
+        print(f"HARNESS-ERROR property={pid}: {type(e).__name__}: {e}\n{traceback.format_exc()}", flush=True)
+        return 2
     known = {f["signature"]: f for f in load_findings().get("findings", []) if f.get("property") == pid}
     by_sig: dict[str, list] = {}
     for v in rep.violations:
